@@ -142,6 +142,7 @@ NOTES_OTHER = {
  "C01-w5m2": "(`consume_direct_write` never ends a sized body): the direct-write report is an operation of C04's op sequences; C01's world sends the body through `write`.",
  "C01-w5m3": "(a plain push instead of the once-only helper in one branch of `try_read_100`: the sixth poll past the decision overflows the list): needs a caller that keeps polling `try_read_100` after `can_keep_await_100()` turned false, six times; C01's callers consult the query. C09 (calls repeated after they have decided) and C12 report it.",
  "C03-w5m1": "(`Call::into_receive` accepts an unfinished chunked body): a premature advance on the single-call API; C03 advances only when finished. C04's closing clause (advance succeeds iff finished, on both APIs) reports it.",
+ "C09-w6m2": "(`Flow<RecvResponse>::can_proceed` tests \"a status was seen\" instead of \"the head is finished\"): the two differ only after a `100 Continue` head was taken in the receive state of a flow that is not waiting for one (an unsolicited 100 in front of the final head). C09's menu puts a 100 only in front of requests with Expect: 100-continue (where the skip of a late 100 leaves no status behind), so the false readiness is never on offer there, although the walk does query readiness after every poll. C11, C15 and C12, whose server scripts contain unsolicited interim heads, report the panic of the `proceed()` that the false readiness invites. Found in the follow-up session; the menu was not extended because changed sources could not be re-validated in the time left - the obvious extension is an unsolicited 100 in front of any final head in C09's stream.",
  "C09-w5m1": "(direct-write accounting decides `ended` from the count before the subtraction) and",
  "C09-w5m2": "(`into_receive` checks \"head written\" instead of \"body ended\"): both sit in the Content-Length upload path, which the C09 walk drives through `write`; C04 reports them.",
  "C18-w5m3": "(the Content-Length overshoot is checked after the write): needs a refused write in the history; C18 is schedule-free. C04 (`refused_write_changed_state`) reports it.",
